@@ -533,7 +533,31 @@ func (pc *precCase) judge(c *core.Ctx, i int, entry, gen string, o outcome) {
 		}
 		return
 	}
-	// 2. Local first.
+	// 2. Whatever comes back without any fetch is one of the local evidence items, byte for byte.
+	if o.err == nil && len(o.urls) == 0 {
+		cands := map[string]bool{}
+		switch state {
+		case "blob":
+			cands[string(blob)] = true
+		case "unknown":
+			for idx, d := range pc.shape.events {
+				if pc.mfrOpt == "" || d.mfr == pc.mfrOpt {
+					cands[string(pc.varBlob[idx])] = true
+				}
+			}
+		}
+		if pc.q.entry {
+			cands[string(pc.blobQ)] = true
+		}
+		if pc.provEntry {
+			cands[string(pc.blobP)] = true
+		}
+		if !cands[string(o.out)] {
+			c.Oracle(i, entry, "returned-bytes-are-no-permitted-local-evidence", gen, "no fetch was made and %d bytes %.60q came back, which are neither the locator the precedence selects (model=%s) nor a certificate-table entry of a quote in hand",
+				len(o.out), o.out, state)
+		}
+	}
+	// 3. Local first.
 	switch state {
 	case "blob":
 		if o.err != nil || !bytes.Equal(o.out, blob) || len(o.urls) != 0 {
@@ -603,12 +627,16 @@ func precDecode(idx int) *precCase {
 	return &precCase{shape: elShapes[x[0]], mfrOpt: []string{googleMfr, ""}[x[1]], q: qVariants[x[2]], prov: provKinds[x[3]], getter: getterKinds[x[4]], force: x[5] == 1}
 }
 
-type precStats struct{ local, entry, fetched, uriSel, cliRuns int }
+type precStats struct {
+	local, entry, fetched, uriSel, cliRuns int
+	sampled                              map[string]bool
+}
 
 // runPrec runs case i (product index idx).
 func runPrec(c *core.Ctx, sc *scratch, i, idx int, st *precStats) {
 	r := c.Rand(i)
 	pc := precDecode(idx)
+	viaCLI := r.IntN(3) == 0 // drawn, not i%3: the index is aligned with the product's radix in the thorough tier
 	pc.build(r, i)
 	gen := "precedence/" + pc.describe()
 	c.Begin(i, gen, entryDirect, []byte(pc.describe()))
@@ -636,6 +664,13 @@ func runPrec(c *core.Ctx, sc *scratch, i, idx int, st *precStats) {
 	if !pc.force && state == "blob" && o1.err == nil {
 		st.local++
 	}
+	if cat := fmt.Sprintf("%s/urls=%d/%s", state, len(o1.urls), outc); !st.sampled[cat] && len(st.sampled) < 5 {
+		if st.sampled == nil {
+			st.sampled = map[string]bool{}
+		}
+		st.sampled[cat] = true
+		c.Sample(map[string]any{"family": "precedence", "case": pc.describe(), "event_log_model": state, "urls": o1.urls, "err": fmt.Sprint(o1.err), "out_head": fmt.Sprintf("%.40q", o1.out)})
+	}
 	if _, ok := pc.localEntry(); ok && !pc.force && state == "nothing" && o1.err == nil {
 		st.entry++
 	}
@@ -646,7 +681,7 @@ func runPrec(c *core.Ctx, sc *scratch, i, idx int, st *precStats) {
 		st.uriSel++
 	}
 	// the command line front end on a slice of the product
-	if i%3 == 0 && pc.prov != "none" { // the command always wraps a provider, so "none" has no counterpart there
+	if viaCLI && pc.prov != "none" { // the command always wraps a provider, so "none" has no counterpart there
 		c.Begin(i, gen, entryCLI, []byte(pc.describe()))
 		o3 := pc.runCLI(c, i, gen, logPath, efiRoot)
 		pc.judge(c, i, entryCLI, gen, o3)
